@@ -1,5 +1,6 @@
 //! pvc-sched: check C20 (thread count and scheduling never change results).
 
+pub mod c12mt;
 pub mod c20;
 pub mod sched;
 
@@ -13,6 +14,18 @@ fn main() {
             match &args.replay {
                 Some(p) => c20::replay(&mut run, &load_replay(p)),
                 None => c20::run(&mut run),
+            }
+            run.finish()
+        }
+        "C12" => {
+            let mut run = Run::new(&args, "exploration");
+            match &args.replay {
+                Some(p) => {
+                    if !c12mt::replay(&mut run, &load_replay(p)) {
+                        std::process::exit(2);
+                    }
+                }
+                None => c12mt::run(&mut run),
             }
             run.finish()
         }
